@@ -37,6 +37,7 @@ var c16Rots = [][]c16Crop{
 	{{"SM", "2002-04-20", "2002-09-25", "1004", "1505", "3009"}, {"WW", "2002-10-15", "2003-07-30", "0510", "0511", "1508"}, {"SM", "2004-04-20", "2004-09-25", "1004", "1505", "3009"}},
 	{{"WW", "2001-10-05", "2002-07-25", "2009", "2510", "1508"}, {"SW", "2003-03-25", "2003-08-10", "0103", "1504", "3108"}, {"ZR", "2004-04-10", "2004-10-10", "2503", "3004", "3110"}},
 	{{"SOY", "2002-05-01", "2002-09-20", "2004", "2005", "2509"}, {"WG", "2002-10-05", "2003-07-10", "0110", "2510", "3107"}},
+	{{"SW", "2002-03-25", "2002-08-10", "0103", "1504", "3108"}, {"WR", "2002-10-10", "2003-07-25", "0110", "1011", "1508"}},
 }
 
 // c16Row renders one automan.txt row at the fixed columns the reader uses.
@@ -129,9 +130,9 @@ func init() {
 		Assumptions: []string{"tables: base, narrow window with unsatisfiable moisture conditions, no windows (rotation dates), latest harvest 5 days after the sowing window, one-stage irrigation with small maximum, wide irrigation with maximum-temperature sowing", "the sowing window and latest harvest date belong to the year of the rotation entry's sowing and harvest date"},
 		Bound: func(t string) string {
 			if t == "quick" {
-				return "3 rotations x 6 tables x 16 switch combinations x 3^3 block words"
+				return "4 rotations x 6 tables x 16 switch combinations x 3^3 block words"
 			}
-			return "3 rotations x 6 tables x 16 switch combinations x 4^4 block words"
+			return "4 rotations x 6 tables x 16 switch combinations x 4^4 block words"
 		},
 		Budget: func(t string) time.Duration {
 			if t == "quick" {
@@ -152,6 +153,19 @@ func c16Run(raw json.RawMessage, c *mc.Ctx) {
 	autoSow, autoHar, autoIrr, autoFert := sp.Switch&1 != 0, sp.Switch&2 != 0, sp.Switch&4 != 0, sp.Switch&8 != 0
 	last := rot[len(rot)-1]
 	ndays := int(proj.D(last.harvest).Sub(proj.D("2001-08-15")).Hours()/24) + 60
+	// the period must reach beyond every crop's latest harvest date (table 3 derives it from the sowing window)
+	for _, cr := range rot {
+		h2 := cr.h2
+		if sp.Table == 3 {
+			t, _ := time.Parse("02012006", cr.sow2+"2002")
+			h2 = t.AddDate(0, 0, 5).Format("0201")
+		}
+		if t, err := time.Parse("02012006", h2+cr.harvest[:4]); err == nil {
+			if n := int(t.Sub(proj.D("2001-08-15")).Hours()/24) + 20; n > ndays {
+				ndays = n
+			}
+		}
+	}
 	b := e1Base{Soil: "loam12", GW: 99, InitW: 0.7, InitN: 40, ET: 3, Start: "2001-08-15"}
 	p := e1Project(b, ndays)
 	p.Rotation = p.Rotation[:1]
@@ -161,6 +175,10 @@ func c16Run(raw json.RawMessage, c *mc.Ctx) {
 	for _, cr := range rot {
 		p.Rotation = append(p.Rotation, proj.CropEntry{Crop: cr.code, Sow: cr.sow, Harvest: cr.harvest, Rex: 50})
 		if !seen[cr.code] {
+			// a decoy row whose code starts with this crop's code comes first (e.g. WRA before WR): rows are matched by the whole code
+			if len(cr.code) == 2 {
+				table.WriteString(c16Row(c16Crop{cr.code + "A", "", "", "0501", "0601", "0107"}, 0) + "\n")
+			}
 			table.WriteString(c16Row(cr, sp.Table) + "\n")
 			seen[cr.code] = true
 		}
